@@ -198,14 +198,31 @@ def run_shard(sh):
     # (e) big containers: sizes around the round numbers where a bulk / chunked code path would plausibly start (max_seq_len=None: nothing is cut)
     sizes = [49, 50, 51, 100, 127, 128, 129, 255, 256, 257, 999, 1000, 1001, 1024, 2000] if quick else list(range(45, 60)) + list(range(95, 135)) + [255, 256, 257, 511, 512, 513, 999, 1000, 1001, 1023, 1024, 1025, 2000, 4096, 5000, 10000]
     for n_el in sizes:
-        for kind in ('list', 'tuple', 'set', 'frozenset', 'dict', 'dict-of-str', 'nested'):
+        for kind in ('list', 'tuple', 'set', 'frozenset', 'dict', 'dict-of-str', 'nested', 'same-kind'):
             idx += 1
             if not sh.mine(idx):
                 continue
             rng = V.rng_for('c01e', sh.seed, n_el, kind)
             def leaf(j):
                 return rng.choice([['int', j], ['str', 'k%d' % j], ['float', repr(j + 0.5)], ['bytes', 'b%d' % j], ['tuple', [['int', j], ['str', 'x']]]])
-            if kind in ('list', 'tuple', 'set', 'frozenset'):
+            if kind == 'same-kind':
+                # every element of the same exact type (a homogeneous series is what a per-type bulk path would look for), special members included
+                pool = rng.choice([
+                    [['float', 'inf'], ['float', '-inf'], ['float', 'nan'], ['float', '-0.0'], ['float', '1e+300'], ['float', '2.5']],
+                    [['int', 0], ['int', -1], ['int', 10 ** 20], ['float', 'nan'], ['float', '0.5'], ['int', 7]],
+                    [['int', 3], ['int', -10 ** 30], ['int', 0]],
+                    [['bool', True], ['bool', False]],
+                    [['none']],
+                    [['str', ''], ['str', "it's"], ['str', 'a"b'], ['str', 'x\\y'], ['str', 'é\n']],
+                    [['bytes', ''], ['bytes', "q'"], ['bytes', 'ÿ\x00']],
+                    [['tuple', []], ['tuple', [['int', 1]]], ['tuple', [['float', 'nan'], ['str', '']]]],
+                    [['ellipsis'], ['none'], ['bool', True]],
+                ])
+                els = [pool[(j * 7 + j // 3) % len(pool)] if j % 11 else pool[0] for j in range(n_el)]
+                recipe = [rng.choice(['list', 'tuple', 'list']), els]
+                if rng.random() < 0.3:
+                    recipe = ['dict', [[['str', 'series'], recipe]]]
+            elif kind in ('list', 'tuple', 'set', 'frozenset'):
                 recipe = [kind, [leaf(j) for j in range(n_el)]]
             elif kind == 'dict':
                 recipe = ['dict', [[leaf(j), leaf(j + n_el)] for j in range(n_el)]]
